@@ -7,6 +7,7 @@
 package c03
 
 import (
+	"os"
 	"crypto/sha256"
 	"encoding/hex"
 	"encoding/json"
@@ -172,6 +173,9 @@ func run(ctx *core.Ctx) error {
 	kind := "q"
 	if ctx.Thorough() {
 		kind = "t"
+	}
+	if os.Getenv("VERIF_C03_ONLY") == "giant" { // developer switch: time this part alone
+		return giantObjectStreams(ctx)
 	}
 	for _, f := range c02.Families {
 		if _, err := ctx.MustHold(core.TLCOpts{Dir: "file", Module: "PdfWriter", Cfg: "MC_PdfWriter_" + kind + "_" + f.String() + ".cfg", Workers: 12,
